@@ -425,23 +425,14 @@ Definition anchored_n (h : heap) (got : list N) (count : N) (g : giov) : option 
   | None => None
   | Some (h1, k1, s, a) =>
     let g1 := set_cache k1 g in
-    if sl_len s =? 0 then Some (h1, g1)
+    (* decode_anchored / encode_anchored: whatever the input contributed, its anchor is queued afterwards *)
+    if sl_len s =? 0 then Some (h1, push_anchor a g1)
     else match push h1 s g1 with
          | None => None
          | Some (h2, g2) => Some (h2, push_anchor a g2)
          end
   end.
-Definition anchored (h : heap) (got : list N) (g : giov) : option (heap * giov) :=
-  match arena_read_n h (gcache_ g) got (nlen got) with
-  | None => None
-  | Some (h1, k1, s, a) =>
-    let g1 := set_cache k1 g in
-    if sl_len s =? 0 then Some (h1, g1)
-    else match push h1 s g1 with
-         | None => None
-         | Some (h2, g2) => Some (h2, push_anchor a g2)
-         end
-  end.
+Definition anchored (h : heap) (got : list N) (g : giov) : option (heap * giov) := anchored_n h got (nlen got) g.
 (* Clone: ByteArena::clone is a fresh arena *)
 Definition clone (g : giov) : giov := set_cache None g.
 
